@@ -46,6 +46,8 @@ func frame(svc uint16, body []byte) []byte {
 // gateway is a tiny tunnelling server on a real loopback socket.
 type gateway struct {
 	conn    *net.UDPConn
+	lis     *net.TCPListener // TCP personality: one accepted stream, no acknowledgements
+	tcp     net.Conn
 	mu      sync.Mutex
 	peer    *net.UDPAddr
 	channel uint8
@@ -63,7 +65,78 @@ func newGateway(t *testing.T) *gateway {
 	return g
 }
 
-func (g *gateway) addr() string { return g.conn.LocalAddr().String() }
+func (g *gateway) addr() string {
+	if g.lis != nil {
+		return g.lis.Addr().String()
+	}
+	return g.conn.LocalAddr().String()
+}
+
+func (g *gateway) close() {
+	if g.lis != nil {
+		g.lis.Close()
+		g.mu.Lock()
+		if g.tcp != nil {
+			g.tcp.Close()
+		}
+		g.mu.Unlock()
+		return
+	}
+	g.conn.Close()
+}
+
+// write sends a frame to the client over whichever transport the gateway speaks.
+func (g *gateway) write(b []byte, to *net.UDPAddr) {
+	if g.lis != nil {
+		g.mu.Lock()
+		c := g.tcp
+		g.mu.Unlock()
+		if c != nil {
+			c.Write(b)
+		}
+		return
+	}
+	g.conn.WriteToUDP(b, to)
+}
+
+func newTCPGateway(t *testing.T) *gateway {
+	l, err := net.ListenTCP("tcp4", &net.TCPAddr{IP: net.IPv4(127, 0, 0, 1)})
+	if err != nil {
+		t.Skipf("no loopback TCP: %v", err)
+	}
+	g := &gateway{lis: l, channel: 1}
+	go func() {
+		c, err := l.Accept()
+		if err != nil {
+			return
+		}
+		g.mu.Lock()
+		g.tcp = c
+		g.peer = &net.UDPAddr{}
+		g.mu.Unlock()
+		var stream []byte
+		buf := make([]byte, 4096)
+		for {
+			n, err := c.Read(buf)
+			if err != nil {
+				return
+			}
+			stream = append(stream, buf[:n]...)
+			for len(stream) >= 6 {
+				tl := int(stream[4])<<8 | int(stream[5])
+				if tl < 6 {
+					return
+				}
+				if len(stream) < tl {
+					break
+				}
+				g.handle(append([]byte(nil), stream[:tl]...), nil)
+				stream = stream[tl:]
+			}
+		}
+	}()
+	return g
+}
 
 func (g *gateway) serve() {
 	buf := make([]byte, 2048)
@@ -72,38 +145,45 @@ func (g *gateway) serve() {
 		if err != nil {
 			return
 		}
-		if n < 8 {
-			continue
-		}
-		svc := uint16(buf[2])<<8 | uint16(buf[3])
-		b := buf[6:n]
-		g.mu.Lock()
+		g.handle(buf[:n], from)
+	}
+}
+
+func (g *gateway) handle(dg []byte, from *net.UDPAddr) {
+	n := len(dg)
+	if n < 8 {
+		return
+	}
+	svc := uint16(dg[2])<<8 | uint16(dg[3])
+	b := dg[6:n]
+	g.mu.Lock()
+	if from != nil {
 		g.peer = from
-		ch, silent := g.channel, g.silent
+	}
+	ch, silent := g.channel, g.silent
+	g.mu.Unlock()
+	if silent {
+		return
+	}
+	switch svc {
+	case 0x0205:
+		g.mu.Lock()
+		g.channel++
+		ch = g.channel
+		g.out = 0
 		g.mu.Unlock()
-		if silent {
-			continue
+		g.write(frame(0x0206, []byte{ch, 0, 8, 1, 127, 0, 0, 1, 0x0e, 0x57, 4, 4, 0x11, 5}), from)
+	case 0x0207:
+		st := byte(0)
+		if b[0] != ch {
+			st = 0x21
 		}
-		switch svc {
-		case 0x0205:
-			g.mu.Lock()
-			g.channel++
-			ch = g.channel
-			g.out = 0
-			g.mu.Unlock()
-			g.conn.WriteToUDP(frame(0x0206, []byte{ch, 0, 8, 1, 127, 0, 0, 1, 0x0e, 0x57, 4, 4, 0x11, 5}), from)
-		case 0x0207:
-			st := byte(0)
-			if b[0] != ch {
-				st = 0x21
-			}
-			g.conn.WriteToUDP(frame(0x0208, []byte{b[0], st}), from)
-		case 0x0209:
-			g.conn.WriteToUDP(frame(0x020a, []byte{b[0], 0}), from)
-		case 0x0420:
-			if len(b) >= 4 && b[1] == ch {
-				g.conn.WriteToUDP(frame(0x0421, []byte{4, b[1], b[2], 0}), from)
-			}
+		g.write(frame(0x0208, []byte{b[0], st}), from)
+	case 0x0209:
+		g.write(frame(0x020a, []byte{b[0], 0}), from)
+	case 0x0420:
+		if g.lis == nil && len(b) >= 4 && b[1] == ch {
+			g.write(frame(0x0421, []byte{4, b[1], b[2], 0}), from)
 		}
 	}
 }
@@ -117,7 +197,7 @@ func (g *gateway) push(id int) {
 		return
 	}
 	c := []byte{0x29, 0, 0xbc, 0xe0, 0x11, 5, byte(id >> 8), byte(id), 3, 0, 0x80, byte(id >> 8), byte(id)}
-	g.conn.WriteToUDP(frame(0x0420, append([]byte{4, ch, seq, 0}, c...)), peer)
+	g.write(frame(0x0420, append([]byte{4, ch, seq, 0}, c...)), peer)
 }
 
 func (g *gateway) disconnect() {
@@ -125,7 +205,7 @@ func (g *gateway) disconnect() {
 	peer, ch := g.peer, g.channel
 	g.mu.Unlock()
 	if peer != nil {
-		g.conn.WriteToUDP(frame(0x0209, []byte{ch, 0, 8, 1, 127, 0, 0, 1, 0x0e, 0x57}), peer)
+		g.write(frame(0x0209, []byte{ch, 0, 8, 1, 127, 0, 0, 1, 0x0e, 0x57}), peer)
 	}
 }
 
@@ -134,11 +214,17 @@ func (g *gateway) disconnect() {
 func TestRaceTunnel(t *testing.T) {
 	rng := rand.New(rand.NewPCG(seed(), 0x10))
 	for round := 0; round < rounds(60); round++ {
-		g := newGateway(t)
-		cfg := knx.TunnelConfig{ResendInterval: 2 * time.Millisecond, ResponseTimeout: 12 * time.Millisecond, HeartbeatInterval: time.Duration(3+rng.IntN(8)) * time.Millisecond, SendLocalAddress: rng.IntN(2) == 0}
+		useTCP := rng.IntN(4) == 0 // a quarter of the rounds run over a TCP stream (no acknowledgements, other code paths)
+		var g *gateway
+		if useTCP {
+			g = newTCPGateway(t)
+		} else {
+			g = newGateway(t)
+		}
+		cfg := knx.TunnelConfig{ResendInterval: 2 * time.Millisecond, ResponseTimeout: 12 * time.Millisecond, HeartbeatInterval: time.Duration(3+rng.IntN(8)) * time.Millisecond, SendLocalAddress: rng.IntN(2) == 0, UseTCP: useTCP}
 		tun, err := knx.NewTunnel(g.addr(), knxnet.TunnelLayerData, cfg)
 		if err != nil {
-			g.conn.Close()
+			g.close()
 			continue
 		}
 		var wg sync.WaitGroup
@@ -204,7 +290,7 @@ func TestRaceTunnel(t *testing.T) {
 		cw.Wait()
 		close(stop)
 		wg.Wait()
-		g.conn.Close()
+		g.close()
 	}
 }
 
